@@ -402,7 +402,7 @@ func r15c(c *core.Ctx) {
 		// cost: a positive constant (or phi of positive constants)
 		costOK := true
 		var costs []string
-		for _, o := range core.Origins(args[2], core.OriginOpts{Prog: c.Prog, FieldsModuleWide: true, ThroughPar: true}) {
+		for _, o := range core.Origins(args[2], core.OriginOpts{Prog: c.Prog, FieldsModuleWide: true, ThroughPar: true, ThroughCall: throughHelpers()}) {
 			k, isC := core.ConstInt(o)
 			if !isC || k < 1 {
 				costOK = false
